@@ -391,6 +391,15 @@ class ArrayRun:
             check_array_readme(out, self.path, m, bool(self.meta), tag)
         return not out.violations
 
+    def _reopen(self, tag):
+        import darr
+        try:
+            self.a = darr.Array(self.path, accessmode=self.mode)
+            return True
+        except Exception as e:
+            self.out.viol('fresh-open-raised', tag, f'step {self.stepno}: {type(e).__name__}: {e}')
+            return False
+
     # -- one step
     def expect_reject(self, tag, fn):
         """fn must raise; the state (data file bytes, and what live and fresh handles report) must be unchanged.
@@ -600,7 +609,8 @@ class ArrayRun:
                     return False
                 self.m = m[:int(idx)].copy()
                 if by != 'obj':
-                    self.a = darr.Array(self.path, accessmode=self.mode)
+                    if not self._reopen(tag):
+                        return False
                 return self.observe(tag)
             if not ok:
                 self.out.cls('rejected-call')
@@ -612,7 +622,8 @@ class ArrayRun:
             if len(self.m) == 0:
                 self.out.cls('trunc-to-0')
             if by != 'obj':   # the live handle is stale by design after a by-path operation: reopen it
-                self.a = darr.Array(self.path, accessmode=self.mode)
+                if not self._reopen(tag):
+                    return False
             if 'model' in self.oracles:
                 with open(os.path.join(self.path, 'arrayvalues.bin'), 'rb') as f:
                     if f.read() != prev[:self.m.nbytes]:
